@@ -21,14 +21,22 @@ ALPHA = [ord(c) for c in "ABCDEFGHIJKLMNOPQRSTUVWXYZabcdefghijklmnopqrstuvwxyz01
 HOSTILE = [61, 32, 10, 13, 9, 0, 45, 95, 46, 44, 64, 91, 96, 123, 42, 58, 127, 128, 129, 0xBF, 0xC0, 0xC1, 0xE9, 0xFE, 0xFF]
 BOUNDARY32 = [0, 1, 2, 3, 4, 15, 16, 31, 32, 47, 48, 62, 63, 64, 65, 95, 96, 126, 127, 128, 129, 159, 160, 191, 192, 193,
               223, 224, 251, 252, 254, 255]
-FLAGS = ["-fsanitize=bounds", "-fno-sanitize-recover=bounds"]
+# _GLIBCXX_ASSERTIONS: std::string::operator[] and friends abort on an index outside [0, size()] - an observer for "never indexes
+# outside ... the input" that also works where the bytes around a short (small-string) argument are the string object's own fields
+FLAGS = ["-fsanitize=bounds", "-fno-sanitize-recover=bounds", "-D_GLIBCXX_ASSERTIONS"]
 PER_LINE = 64
 # build flavours (configuration axes: compiler, optimisation level, signedness of plain char); all with ASan + bounds
 FLAVOURS = {"asan": tables.Flavour("asan"),
             "O2u": tables.Flavour("O2u", flags=["-O2", "-funsigned-char"]),
             "clangO2": tables.Flavour("clangO2", cxx="clang++", flags=["-O2"]),
             "O0s": tables.Flavour("O0s", flags=["-O0", "-fsigned-char"])}
-SECONDARY_FAMILIES = ("rnd-enc", "hostile-dec", "long-enc", "long-dec", "exh3q-enc", "upstream-enc", "upstream-dec")
+SECONDARY_FAMILIES = ("rnd-enc", "hostile-dec", "long-enc", "long-dec", "exh3q-enc", "upstream-enc", "upstream-dec", "es3-small", "ds3-small", "shrunk", "pad-dec")
+SECONDARY_ONLY = ("exh3q-enc", "es3-small", "ds3-small")      # subsumed by the full sweeps in the default build
+# round 3: stratified decoder alphabet - the ends of the three alphabet ranges, '+', '/', '=', their neighbours in the code table
+# ('@' '[' '`' '{' ':' '*' ','), the URL-safe '-' '_', NUL, DEL, 0x80, 0xFF, white space, and two bytes that are alphabet
+# characters modulo 128 (0xC1 = 'A' + 128, 0xFA = 'z' + 128)
+STRAT28 = [65, 90, 97, 122, 48, 57, 43, 47, 61, 64, 91, 96, 123, 58, 45, 95, 0, 127, 128, 255, 32, 10, 9, 13, 0xC1, 0xFA, 42, 44]
+BOUNDARY8 = [0, 1, 63, 127, 128, 192, 254, 255]
 BOUNDARY16 = [0, 1, 62, 63, 64, 127, 128, 129, 191, 192, 193, 223, 251, 252, 254, 255]
 
 
@@ -70,8 +78,14 @@ def hostile_text(rnd):
     return run + [rnd.choice(ALPHA) + 128] + py_encode_text(rnd, rnd.randrange(0, 6))
 
 
-def pack(op, cases, per=PER_LINE):
-    return [{"op": op, "c": cases[i:i + per]} for i in range(0, len(cases), per)]
+def pack(op, cases, per=PER_LINE, **more):
+    return [dict({"op": op, "c": cases[i:i + per]}, **more) for i in range(0, len(cases), per)]
+
+
+def sweeps(op, pos, others, per=32):
+    """sweep lines: every case is a string of length len(others[0]) + 1 whose element at position pos (1-based) runs over 0..255
+    in the harness; others = the remaining elements in order"""
+    return pack(op, [list(o[:pos - 1]) + [0] + list(o[pos - 1:]) for o in others], per=per, pos=pos)
 
 
 def split(lines, n):
@@ -97,6 +111,37 @@ def scripts(ctx):
         ex3d = [[a, b, c] for a in dch for b in dch for c in dch] + \
                [[a, b, c, d] for a in dch for b in dch for c in dch for d in dch]
         out["exh34-dec"] = pack("D", ex3d)
+    # ---- round 3: sweeps (one case = 256 strings, see harness/base64/driver.cpp)
+    # encoder + round trip: EVERY byte string of length 3 in the thorough tier (256^3 = 16 777 216 strings: all (a, b) x the
+    # third byte swept); quick: third byte swept for 32 x 32 boundary bytes, first / second byte swept for 8 x 8
+    allpairs = [(a, b) for a in range(256) for b in range(256)]
+    if q:
+        out["es3"] = sweeps("ES", 3, [(a, b) for a in BOUNDARY32 for b in BOUNDARY32]) + \
+                     sweeps("ES", 1, [(a, b) for a in BOUNDARY8 for b in BOUNDARY8]) + sweeps("ES", 2, [(a, b) for a in BOUNDARY8 for b in BOUNDARY8])
+    else:
+        out["es3"] = sweeps("ES", 3, allpairs) + sweeps("ES", 1, [()]) + sweeps("ES", 1, [(b,) for b in range(256)])
+    out["es3-small"] = sweeps("ES", 3, [(a, b) for a in BOUNDARY16 for b in BOUNDARY16])
+    # decoder: EVERY text of length 3 over all 256 character values in the thorough tier; quick: the third character swept
+    # for 28 x 28 stratified characters, the first / second for 12 x 12
+    if q:
+        out["ds3"] = sweeps("DS", 3, [(a, b) for a in STRAT28 for b in STRAT28]) + \
+                     sweeps("DS", 1, [(a, b) for a in STRAT28[:12] for b in STRAT28[:12]]) + sweeps("DS", 2, [(a, b) for a in STRAT28[:12] for b in STRAT28[:12]])
+    else:
+        out["ds3"] = sweeps("DS", 3, allpairs) + sweeps("DS", 1, [()]) + sweeps("DS", 1, [(b,) for b in range(256)])
+    out["ds3-small"] = sweeps("DS", 3, [(a, b) for a in STRAT28[:12] for b in STRAT28[:12]]) + sweeps("DS", 2, [(65, 66, 67, c) for c in STRAT28[:12]])
+    # decoder texts of length 4 and 5 over the stratified alphabet: all 16^4 + 8^5 (thorough: 28^4 + 12^5), and with one
+    # position swept over all 256 values: length 4 over 4 (thorough 8) characters, length 5 over 3 (thorough 5)
+    a4, a5 = (STRAT28[:16], STRAT28[:8]) if q else (STRAT28, STRAT28[:12])
+    out["strat45-dec"] = pack("D", [[a, b, c, d] for a in a4 for b in a4 for c in a4 for d in a4] +
+                              [[a, b, c, d, e] for a in a5 for b in a5 for c in a5 for d in a5 for e in a5])
+    fix = [65, 47, 61, 128, 122, 43, 0, 95]            # 'A' '/' '=' 0x80 'z' '+' NUL '_'
+    s4, s5 = (fix[:4], fix[:3]) if q else (fix, fix[:5])
+    ds45 = []
+    for pos in (1, 2, 3, 4):
+        ds45 += sweeps("DS", pos, [(a, b, c) for a in s4 for b in s4 for c in s4])
+    for pos in (1, 2, 3, 4, 5):
+        ds45 += sweeps("DS", pos, [(a, b, c, d) for a in s5 for b in s5 for c in s5 for d in s5])
+    out["ds45"] = ds45
     # (b) seeded random byte strings, length 0..64 (a few longer: the int accumulator wraps)
     nrand = 20000 if q else 300000
     rc = []
@@ -127,6 +172,28 @@ def scripts(ctx):
                 t[k + 1:] = [rnd.randrange(256) for _ in range(n - k - 1)]
         ld.append(t)
     out["long-dec"] = pack("D", ld, per=4)
+    # round 3, arguments with history: strings whose capacity exceeds their size (a longer string shrunk / reserve + assign); the
+    # slack behind the terminator is poisoned under ASan.  A slice of the random and hostile families and every length <= 1 string
+    sh = [dict(l, arg=1) for l in out["rnd-enc"][:len(out["rnd-enc"]) // (8 if q else 4)] + out["hostile-dec"][:len(out["hostile-dec"]) // (8 if q else 4)]]
+    sh += pack("E", [[]] + [[a] for a in range(256)], arg=1) + pack("D", [[]] + [[a] for a in range(256)], arg=1)
+    sh += [dict(l, arg=1) for l in out["es3-small"][:2] + out["ds3-small"][:2] + out["long-enc"][:3] + out["long-dec"][:3]]
+    out["shrunk"] = sh
+    # round 3 (after the seeded change C13-decode-strips-padding-unbounded, which walked backwards over trailing '=' without a
+    # lower bound): texts that are empty / nothing but padding / padding behind or before a short alphabet run, every length
+    # 0..40, white space and NUL runs likewise; each once as an exact-size argument (small-string buffer up to 15 characters, exact
+    # heap block above) and once as a heap buffer with spare capacity ("arg":1 - then even the empty text lives in a heap block,
+    # whose left redzone is directly in front of data())
+    pd = []
+    for n in range(0, 41):
+        pd.append([61] * n)
+        for k in (1, 2, 3, 4, 5):
+            run = py_encode_text(rnd, k)
+            pd.append(run + [61] * n)
+            pd.append([61] * n + run)
+        pd.append([32] * n)
+        pd.append([0] * n)
+        pd.append([61] * n + [10])
+    out["pad-dec"] = pack("D", pd) + pack("D", pd, arg=1) + pack("E", [[61] * n for n in range(0, 41)], arg=1)
     return out
 
 
@@ -138,7 +205,11 @@ def build(ctx, flavour="asan"):
 
 
 def describe(line):
-    return "%s(%s)" % ("base64encode+decode" if line["op"] == "E" else "base64decode", line["c"][0])
+    if line["op"] in ("ES", "DS"):
+        return "%s(%s with element %d running over 0..255)%s" % ("base64encode+decode" if line["op"] == "ES" else "base64decode", line["c"][0], line["pos"],
+                                                                 " [argument strings with capacity > size]" if line.get("arg") else "")
+    return "%s(%s)%s" % ("base64encode+decode" if line["op"] == "E" else "base64decode", line["c"][0],
+                         " [argument strings with capacity > size]" if line.get("arg") else "")
 
 
 def replay(ctx, path):
@@ -194,30 +265,42 @@ def run(ctx):
 
     jobs = []
     for name, lines in sc.items():
-        for i, ch in enumerate(split(lines, 2 if q else (8 if len(lines) > 2000 else 4))):
+        if name in SECONDARY_ONLY:
+            continue
+        nsplit = (4 if name in ("es3", "ds3") else 2) if q else (64 if name == "es3" else 24 if name == "ds3" else 8 if len(lines) > 2000 else 4)
+        for i, ch in enumerate(split(lines, nsplit)):
             jobs.append(tables.Job("%s-%d" % (name, i), drvs["asan"], ch, bld="asan"))
     for f in flavours[1:]:
         for name in SECONDARY_FAMILIES:
             lines = sc[name] if q or len(sc[name]) < 400 else sc[name][:len(sc[name]) // 4]
             for i, ch in enumerate(split(lines, 1 if q else 2)):
                 jobs.append(tables.Job("%s-%s-%d" % (name, f, i), drvs[f], ch, bld=f))
-    ncases = sum(len(l["c"]) for j in jobs for l in j.lines)
-    ctx.log("C->S: %d cases in %d tables, builds %s" % (ncases, len(jobs), flavours))
+    ncases = sum(len(l["c"]) * (256 if l["op"] in ("ES", "DS") else 1) for j in jobs for l in j.lines)
+    ctx.log("C->S: %d cases (a sweep case counts as its 256 calls) in %d tables, builds %s" % (ncases, len(jobs), flavours))
     ctx.notes["build_flavours"] = {f: " ".join([FLAVOURS[f].cxx or core.CXX] + FLAVOURS[f].flags) for f in flavours}
     ctx.sample({"script": [str(sc["rnd-enc"][0]["c"][:3]), str(sc["hostile-dec"][0]["c"][:4])]})
     ok = tables.validate(ctx, "Base64Check", "Base64Check.cfg", jobs, describe=describe)
     ctx.cov["distinct_nontrivial"] = ncases
-    ctx.notes["cases_by_family"] = {k: sum(len(l["c"]) for l in v) for k, v in sc.items()}
-    ctx.log("TLC accepted %d of %d recorded cases" % (ok, ncases))
+    ctx.notes["cases_by_family"] = {k: sum(len(l["c"]) * (256 if l["op"] in ("ES", "DS") else 1) for l in v) for k, v in sc.items()}
+    ctx.cov["evaluations"] = ncases
+    ctx.log("TLC accepted %d of %d table cases (%d calls; a sweep case is 256 calls)" % (ok, sum(len(l["c"]) for j in jobs for l in j.lines), ncases))
     return core.finish(
         ctx, "exploration",
-        rule="every byte string of length <= 2 over 0..255 (65 793) through encode, decode(encode) and as decode text; every string of "
-             "length 3 over %d boundary bytes%s; seeded random byte strings (length 0..64, some to 400) and hostile decode texts (alphabet "
+        rule="every byte string of length <= 2 over 0..255 (65 793) through encode, decode(encode) and as decode text; %s; "
+             "decoder texts of length 4 and 5: all over %s stratified characters (range ends of the alphabet, '+' '/' '=', their neighbours in the code "
+             "table, URL-safe '-' '_', NUL, DEL, 0x80, 0xFF, white space, alphabet characters + 128), and with each single position swept over 0..255 "
+             "around fixed characters; seeded random byte strings (length 0..64, some to 400) and hostile decode texts (alphabet "
              "run + padding / whitespace / NUL / bytes >= 0x80 / truncated groups); long inputs (400..20 000 bytes, every length residue, "
-             "lengths around 512/1024/4096) for both functions; one case = one call with its returned string compared by TLC with "
-             "Base64.tla; harness under ASan + -fsanitize=bounds (abort on any index outside the decode table); the random, hostile, "
-             "long and length-3 families are repeated in the builds %s"
-             % (16 if q else 32, "" if q else "; decode texts of length 3-4 over 16 characters", ", ".join(flavours[1:])),
+             "lengths around 512/1024/4096) for both functions; a slice of all of these with argument strings whose capacity exceeds their size "
+             "(slack poisoned under ASan); one case = one call (a sweep case = 256 calls) with its returned string compared by TLC with "
+             "Base64.tla - for encoder cases by two routes (Encode, and L1's DecodePrefix applied to the recorded output plus length/padding "
+             "laws); harness under ASan + -fsanitize=bounds (abort on any index outside the decode table); the random, hostile, "
+             "long, capacity and small sweep families are repeated in the builds %s"
+             % ("EVERY byte string of length 3 (16 777 216) through encode + decode(encode) and EVERY text of length 3 over all 256 character values through "
+                "decode (byte sweeps, every value checked by TLC)" if not q else
+                "length 3: the third byte swept over 0..255 for 32 x 32 boundary bytes and the first / second for 8 x 8 (encode + round trip), the third "
+                "character swept for 28 x 28 stratified characters and the first / second for 12 x 12 (decode)",
+                "16 (length 4) / 8 (length 5)" if q else "28 (length 4) / 12 (length 5)", ", ".join(flavours[1:])),
         assumptions=["a read BEHIND an argument string is an ASan report for every length (heap block of exact size; for the small-string "
                      "buffer the bytes behind the terminator are poisoned by hand); a read BEFORE it is detected for arguments of >= 16 "
                      "bytes only (for shorter ones the preceding bytes are the string object's own fields)",
@@ -225,7 +308,9 @@ def run(ctx):
                      "by the letter of C++14, wrap-around for g++ and clang++ (and since C++20). The property speaks of results and of "
                      "table / input indexing only, so this is recorded as an observation; results are compared under every build flavour "
                      "listed, not under -fsanitize=shift",
-                     "URL-safe alphabet: not provided by the header, nothing to check",
+                     "URL-safe alphabet: not provided by the header; '-' and '_' must end the run like any other character (in the stratified alphabet)",
+                     "xbase64.hpp exposes exactly two functions, base64encode(const std::string&) and base64decode(const std::string&), no overloads, "
+                     "no table helpers (grep over the header); both are driven through every family",
                      "compilers/platform: g++ 12 and clang++ 14 on x86-64 Linux (plain char signed by default; -funsigned-char and "
                      "-fsigned-char builds included)"],
         exhaustive=False)
